@@ -27,6 +27,7 @@ pub mod c27;
 pub mod c28;
 pub mod unify;
 pub mod fp;
+pub mod trunc;
 
 /// properties whose harness run is split over child processes (see main.rs `run_sharded`)
 pub fn sharded(prop: &str) -> bool {
@@ -46,7 +47,12 @@ pub fn run(ctx: &Ctx, out: &mut Out) -> bool {
         "C21" => c21::run(ctx, out),
         "C28" => c28::run(ctx, out),
         "C08" => c08::run(ctx, out),
-        "C09" | "C10" | "C11" | "C12" => fp::run(ctx, out),
+        "C09" => {
+            // fp::run replaces `out` by its own thread's output: the size-limit cases come after it
+            fp::run(ctx, out);
+            trunc::run(ctx, out);
+        }
+        "C10" | "C11" | "C12" => fp::run(ctx, out),
         "C13" => c13::run(ctx, out),
         "C17" => {
             c17::run(ctx, out);
